@@ -10,6 +10,7 @@ import (
 	"strings"
 
 	"github.com/golang/protobuf/proto"
+	"github.com/uber/kraken/core"
 	"github.com/uber/kraken/gen/go/proto/p2p"
 )
 
@@ -61,6 +62,14 @@ type tcase struct {
 	HSDesc string `json:"handshake_desc,omitempty"`
 	Msgs   []wmsg `json:"msgs,omitempty"`
 	Policy string `json:"policy,omitempty"`
+	// MustEnd: the handshake carries a bitfield of the wrong size (see hsCase).
+	MustEnd bool `json:"must_end,omitempty"`
+
+	// Scheduler-level families (sched, sched+msg) only.
+	Dir        string `json:"direction,omitempty"`   // out: the victim dials the hostile peer; in: the hostile peer dials the victim
+	Pieces     int    `json:"pieces,omitempty"`      // number of pieces of the victim's torrent
+	PeerOrigin bool   `json:"peer_origin,omitempty"` // out: the tracker handed the hostile peer out as an origin
+	Start      string `json:"start,omitempty"`       // piece0: the agent holds piece 0; empty: no piece
 }
 
 type family struct {
@@ -348,6 +357,58 @@ func bitfieldBytes(length uint64, words int, word uint64) []byte {
 	return b
 }
 
+// bitfieldWords is bitfieldBytes with individually chosen words.
+func bitfieldWords(length uint64, ws []uint64) []byte {
+	b := make([]byte, 8+8*len(ws))
+	binary.BigEndian.PutUint64(b, length)
+	for i, w := range ws {
+		binary.BigEndian.PutUint64(b[8+8*i:], w)
+	}
+	return b
+}
+
+// shape is one torrent the victims hold: shapes[0] is the default 3-piece blob
+// of every conn/dispatcher-level family; the scheduler-level families also use
+// torrents whose piece count is / is not a multiple of the bitset word size.
+type shape struct {
+	n        int
+	pieceLen int32
+	blob     []byte
+	infoHash string
+	name     string
+	mi       *core.MetaInfo
+}
+
+var shapes []*shape
+
+func (sh *shape) plen(i int) int32 {
+	if i < 0 || i >= sh.n {
+		return 0
+	}
+	if i == sh.n-1 {
+		return int32(len(sh.blob)) - sh.pieceLen*int32(i)
+	}
+	return sh.pieceLen
+}
+
+func (sh *shape) piece(i int) []byte {
+	s := int(sh.pieceLen) * i
+	return sh.blob[s : s+int(sh.plen(i))]
+}
+
+func (sh *shape) words() int { return (sh.n + 63) / 64 }
+
+// cleanBitfield is the bitfield of sh's size with exactly the given pieces set.
+func (sh *shape) cleanBitfield(all bool) []byte {
+	ws := make([]uint64, sh.words())
+	if all {
+		for i := 0; i < sh.n; i++ {
+			ws[i/64] |= 1 << uint(i%64)
+		}
+	}
+	return bitfieldWords(uint64(sh.n), ws)
+}
+
 type hsFields struct {
 	typ       p2p.Message_Type
 	nilBody   bool
@@ -368,6 +429,12 @@ func honestHS(peer string) hsFields {
 		namespace: "ns", bitfield: bitfieldBytes(uint64(nPieces), 1, 0)}
 }
 
+// honestHSFor: a well-formed handshake for sh with an empty bitfield.
+func honestHSFor(peer string, sh *shape) hsFields {
+	return hsFields{typ: p2p.Message_BITFIELD, peerID: peer, infoHash: sh.infoHash, name: sh.name,
+		namespace: "ns", bitfield: sh.cleanBitfield(false)}
+}
+
 func (h hsFields) body() []byte {
 	m := &p2p.Message{Type: h.typ}
 	if !h.nilBody {
@@ -384,92 +451,185 @@ type hsCase struct {
 	body []byte
 	desc string
 	kind string
+	// mustEnd: the handshake carries a "bitfield of the wrong size" in the
+	// statement's sense (undecodable, declared size != number of pieces, or bits
+	// set beyond the number of pieces): it must be rejected / end the connection.
+	mustEnd bool
 }
 
-var hdrGrid = []uint64{0, 1, uint64(nPieces) - 1, uint64(nPieces), uint64(nPieces) + 1, 63, 64, 65, 128, 1 << 16, 1 << 26, 1 << 36, 1 << 63, math.MaxUint64}
+func hdrGridFor(n int) []uint64 {
+	var out []uint64
+	seen := map[uint64]bool{}
+	for _, L := range []uint64{0, 1, uint64(n) - 1, uint64(n), uint64(n) + 1, 63, 64, 65, 128, 1 << 16, 1 << 26, 1 << 36, 1 << 63, math.MaxUint64} {
+		if !seen[L] {
+			seen[L] = true
+			out = append(out, L)
+		}
+	}
+	return out
+}
 
-func handshakes() []hsCase {
+// bitfieldPatterns: the word patterns of the handshake bitfield grid. The
+// first three fill every word with the same value; the others place single
+// bits at the boundary between the torrent's pieces and the unused tail of the
+// last word.
+var bitfieldPatterns = []string{"zero", "ones", "low-n-bits", "exactly-n-bits", "only-bit-n", "only-last-bit"}
+
+func patternWords(p string, w, n int) ([]uint64, bool) {
+	ws := make([]uint64, w)
+	switch p {
+	case "zero":
+	case "ones":
+		for i := range ws {
+			ws[i] = math.MaxUint64
+		}
+	case "low-n-bits":
+		k := uint(n % 64)
+		if n < 64 {
+			k = uint(n)
+		}
+		v := uint64(math.MaxUint64)
+		if k != 0 {
+			v = 1<<k - 1
+		}
+		for i := range ws {
+			ws[i] = v
+		}
+	case "exactly-n-bits":
+		for i := 0; i < n && i < 64*w; i++ {
+			ws[i/64] |= 1 << uint(i%64)
+		}
+	case "only-bit-n":
+		if n >= 64*w {
+			return nil, false
+		}
+		ws[n/64] = 1 << uint(n%64)
+	case "only-last-bit":
+		ws[w-1] = 1 << 63
+	}
+	return ws, true
+}
+
+// wrongSize decides mustEnd for a bitfield with length header L and words ws
+// against a torrent of n pieces (bitset decodes the first ceil(L/64) words and
+// ignores the rest).
+func wrongSize(L uint64, ws []uint64, n int) bool {
+	if L != uint64(n) {
+		return true
+	}
+	need := (n + 63) / 64
+	if len(ws) < need {
+		return true // undecodable: fewer words than declared bits
+	}
+	for i := n; i < 64*need; i++ {
+		if ws[i/64]&(1<<uint(i%64)) != 0 {
+			return true
+		}
+	}
+	return false
+}
+
+func handshakes() []hsCase { return handshakesFor(shapes[0]) }
+
+// handshakesFor is the hostile handshake alphabet for a torrent of shape sh.
+func handshakesFor(sh *shape) []hsCase {
 	var out []hsCase
-	add := func(h hsFields, kind, desc string) { out = append(out, hsCase{h.body(), desc, kind}) }
-	patterns := []struct {
-		name string
-		w    uint64
-	}{{"zero", 0}, {"ones", math.MaxUint64}, {"low-n-bits", 1<<uint(nPieces) - 1}}
+	n := sh.n
+	add := func(h hsFields, kind, desc string, mustEnd bool) {
+		out = append(out, hsCase{h.body(), desc, kind, mustEnd})
+	}
 	// (a) bitfield: length header x number of words x word pattern
-	for _, L := range hdrGrid {
+	seen := map[string]bool{}
+	for _, L := range hdrGridFor(n) {
 		for w := 0; w <= 3; w++ {
-			for pi, p := range patterns {
+			for pi, p := range bitfieldPatterns {
 				if w == 0 && pi > 0 {
 					continue
 				}
-				h := honestHS(attackerID)
-				h.bitfield = bitfieldBytes(L, w, p.w)
-				add(h, "handshake bitfield", fmt.Sprintf("bitfieldBytes{length header:%d, %d words of %s}", L, w, p.name))
+				ws, ok := patternWords(p, w, n)
+				if !ok {
+					continue
+				}
+				b := bitfieldWords(L, ws)
+				if seen[string(b)] {
+					continue // two patterns that coincide for this n, w
+				}
+				seen[string(b)] = true
+				h := honestHSFor(attackerID, sh)
+				h.bitfield = b
+				add(h, "handshake bitfield", fmt.Sprintf("bitfieldBytes{length header:%d, %d words of %s}", L, w, p), wrongSize(L, ws, n))
 			}
 		}
 	}
+	clean := sh.cleanBitfield(false)
 	for l := 0; l < 8; l++ {
-		h := honestHS(attackerID)
-		h.bitfield = bitfieldBytes(uint64(nPieces), 0, 0)[:l]
-		add(h, "handshake bitfield", fmt.Sprintf("bitfieldBytes truncated to %d bytes", l))
+		h := honestHSFor(attackerID, sh)
+		h.bitfield = clean[:l]
+		add(h, "handshake bitfield", fmt.Sprintf("bitfieldBytes truncated to %d bytes", l), true)
 	}
 	for l := 1; l < 8; l++ {
-		h := honestHS(attackerID)
-		h.bitfield = append(bitfieldBytes(uint64(nPieces), 1, 0), make([]byte, l)...)
-		add(h, "handshake bitfield", fmt.Sprintf("bitfieldBytes with %d trailing bytes", l))
+		h := honestHSFor(attackerID, sh)
+		h.bitfield = append(append([]byte{}, clean...), make([]byte, l)...)
+		add(h, "handshake bitfield", fmt.Sprintf("bitfieldBytes with %d trailing bytes", l), false)
 	}
 	// (b) remote bitfields
 	keys := []string{"", "zz", otherID, victimID, otherID + "0"}
+	one := make([]uint64, sh.words())
+	one[0] = 1
+	ones := make([]uint64, (n+1+63)/64)
+	for i := range ones {
+		ones[i] = math.MaxUint64
+	}
 	vals := []struct {
 		name string
 		b    []byte
 	}{
-		{"empty", nil}, {"honest", bitfieldBytes(uint64(nPieces), 1, 1)}, {"header 2^36 no words", bitfieldBytes(1<<36, 0, 0)},
-		{"header 2^26 no words", bitfieldBytes(1<<26, 0, 0)}, {"n+1 bits all ones", bitfieldBytes(uint64(nPieces)+1, 1, math.MaxUint64)},
+		{"empty", nil}, {"honest", bitfieldWords(uint64(n), one)}, {"header 2^36 no words", bitfieldBytes(1<<36, 0, 0)},
+		{"header 2^26 no words", bitfieldBytes(1<<26, 0, 0)}, {"n+1 bits all ones", bitfieldWords(uint64(n)+1, ones)},
 		{"3 bytes", []byte{0, 0, 0}},
 	}
 	for _, k := range keys {
 		for _, v := range vals {
-			h := honestHS(attackerID)
+			h := honestHSFor(attackerID, sh)
 			h.remote = map[string][]byte{k: v.b}
-			add(h, "handshake remote bitfield", fmt.Sprintf("remoteBitfieldBytes{%q: %s}", k, v.name))
+			add(h, "handshake remote bitfield", fmt.Sprintf("remoteBitfieldBytes{%q: %s}", k, v.name), false)
 		}
 	}
 	// (c) ids
 	for _, id := range []string{"", "00", strings.Repeat("z", 40), otherID, otherID + "00", victimID, honestID} {
-		h := honestHS(id)
-		add(h, "handshake ids", fmt.Sprintf("peerID %q", id))
+		h := honestHSFor(id, sh)
+		add(h, "handshake ids", fmt.Sprintf("peerID %q", id), false)
 	}
 	for _, ih := range []string{"", strings.Repeat("z", 40), strings.Repeat("1", 40), strings.Repeat("1", 39)} {
-		h := honestHS(attackerID)
+		h := honestHSFor(attackerID, sh)
 		h.infoHash = ih
-		add(h, "handshake ids", fmt.Sprintf("infoHash %q", ih))
+		add(h, "handshake ids", fmt.Sprintf("infoHash %q", ih), false)
 	}
 	for _, nm := range []string{"", strings.Repeat("z", 64), strings.Repeat("1", 64), strings.Repeat("1", 63)} {
-		h := honestHS(attackerID)
+		h := honestHSFor(attackerID, sh)
 		h.name = nm
-		add(h, "handshake ids", fmt.Sprintf("name %q", nm))
+		add(h, "handshake ids", fmt.Sprintf("name %q", nm), false)
 	}
 	for _, ns := range []string{"", strings.Repeat("n", 1000)} {
-		h := honestHS(attackerID)
+		h := honestHSFor(attackerID, sh)
 		h.namespace = ns
-		add(h, "handshake ids", fmt.Sprintf("namespace of %d chars", len(ns)))
+		add(h, "handshake ids", fmt.Sprintf("namespace of %d chars", len(ns)), false)
 	}
 	// (d) message shape
 	for t := int32(1); t <= 7; t++ {
-		h := honestHS(attackerID)
+		h := honestHSFor(attackerID, sh)
 		h.typ = p2p.Message_Type(t)
-		add(h, "handshake shape", fmt.Sprintf("bitfield body under type %d", t))
+		add(h, "handshake shape", fmt.Sprintf("bitfield body under type %d", t), false)
 	}
-	h := honestHS(attackerID)
+	h := honestHSFor(attackerID, sh)
 	h.nilBody = true
-	add(h, "handshake shape", "BITFIELD type without body")
-	h = honestHS(attackerID)
+	add(h, "handshake shape", "BITFIELD type without body", false)
+	h = honestHSFor(attackerID, sh)
 	h.extra = func(m *p2p.Message) {
 		m.PiecePayload = &p2p.PiecePayloadMessage{Index: -1, Length: -1}
 		m.PieceRequest = &p2p.PieceRequestMessage{Index: -1}
 	}
-	add(h, "handshake shape", "honest bitfield plus payload/request bodies")
+	add(h, "handshake shape", "honest bitfield plus payload/request bodies", false)
 	return out
 }
 
@@ -484,7 +644,11 @@ func acceptedShapes() []hsCase {
 	}{{0, 0, 0}, {uint64(nPieces) - 1, 1, 0}, {uint64(nPieces) - 1, 1, 1}, {uint64(nPieces), 1, 1<<uint(nPieces) - 1}, {uint64(nPieces) + 1, 1, 0}, {64, 1, 0}, {65, 2, 0}} {
 		h := honestHS(attackerID)
 		h.bitfield = bitfieldBytes(s.L, s.w, s.word)
-		out = append(out, hsCase{h.body(), fmt.Sprintf("bitfieldBytes{length header:%d, %d words of %#x}", s.L, s.w, s.word), "handshake bitfield"})
+		ws := make([]uint64, s.w)
+		for i := range ws {
+			ws[i] = s.word
+		}
+		out = append(out, hsCase{h.body(), fmt.Sprintf("bitfieldBytes{length header:%d, %d words of %#x}", s.L, s.w, s.word), "handshake bitfield", wrongSize(s.L, ws, nPieces)})
 	}
 	return out
 }
@@ -538,7 +702,7 @@ func families(thorough bool) []family {
 	fs = append(fs, family{name: "hs", count: int64(len(hs) * len(victims)), chunk: 16, get: func(i int64) tcase {
 		h := hs[i/int64(len(victims))]
 		v := victims[i%int64(len(victims))]
-		return tcase{Family: "hs", Victim: v, Kind: h.kind, Desc: "handshake " + h.desc, HS: h.body, HSDesc: h.desc}
+		return tcase{Family: "hs", Victim: v, Kind: h.kind, Desc: "handshake " + h.desc, HS: h.body, HSDesc: h.desc, MustEnd: h.mustEnd}
 	}})
 	// handshake shape x follow-up message
 	shapes := acceptedShapes()
@@ -554,8 +718,9 @@ func families(thorough bool) []family {
 		h := shapes[j/int64(len(follow))]
 		m := follow[j%int64(len(follow))]
 		return tcase{Family: "hs+msg", Victim: v, Kind: h.kind + " then " + m.Type, Desc: "handshake " + h.desc + " then " + m.Desc,
-			HS: h.body, HSDesc: h.desc, Msgs: []wmsg{m}}
+			HS: h.body, HSDesc: h.desc, Msgs: []wmsg{m}, MustEnd: h.mustEnd}
 	}})
+	fs = append(fs, schedFamilies(thorough, shapes, follow)...)
 	if thorough {
 		pols := []string{"default", "rarest_first"}
 		fs = append(fs, family{name: "pair", count: int64(len(red) * len(red) * len(victims) * len(pols)), chunk: 32, get: func(i int64) tcase {
